@@ -36,14 +36,15 @@ Lemma map_as_flat_map {A B} (f : A -> B) l : map f l = flat_map (fun x => [f x])
 Proof. induction l; simpl; congruence. Qed.
 
 (* n values written one by one without title, read by a loop *)
+Lemma reads_dbl_list_t t ds n :
+  Forall wf_dbl ds -> n = lenZ ds -> reads (rrepZ n rd_dbl) (map (r_dbl t) ds) ds.
+Proof.
+  intros Hwf ->. rewrite map_as_flat_map.
+  apply reads_rrepZ; auto. intros x Hx. rewrite Forall_forall in Hwf. apply reads_dbl. auto.
+Qed.
 Lemma reads_dbl_list ds n :
   Forall wf_dbl ds -> n = lenZ ds -> reads (rrepZ n rd_dbl) (map (r_dbl "") ds) ds.
-Proof.
-  intros Hwf ->. rewrite <- (app_nil_r (map _ ds)).
-  replace (map (r_dbl "") ds ++ []) with (flat_map (fun d => [r_dbl "" d]) ds).
-  - apply reads_rrepZ; auto. intros x Hx. rewrite Forall_forall in Hwf. apply reads_dbl. auto.
-  - rewrite app_nil_r. clear Hwf. induction ds; simpl; congruence.
-Qed.
+Proof. apply reads_dbl_list_t. Qed.
 
 (* ------------------------------------------------------------------ ANeigh, NeighUnique, NeighBench, NeighCell *)
 Definition wf_aneigh (a : aneigh) : Prop := a = aneigh_default (an_ndim a).
@@ -244,11 +245,18 @@ Lemma forallb_flat_map_true {A B} (p : B -> bool) (f : A -> list B) l :
   (forall x, In x l -> forallb p (f x) = true) -> forallb p (flat_map f l) = true.
 Proof. intros H. induction l; simpl; auto. rewrite forallb_app, H, IHl; simpl; auto. intros; apply H; simpl; auto. Qed.
 
+Lemma good_str_list t ws : good_title (W t) = true -> forallb good_word ws = true -> forallb good_rec (map (r_str t) ws) = true.
+Proof.
+  intros Ht Hw. induction ws as [|w ws IH]; simpl in *; auto. apply andb_prop in Hw. destruct Hw as [H1 H2].
+  rewrite Ht, H1, IH; auto.
+Qed.
+
 (* solves  forallb good_rec (concrete list built from the typed record constructors) = true *)
 Ltac good :=
   repeat first
     [ apply good_r_int; reflexivity | apply good_r_dbl; reflexivity | apply good_r_bool; reflexivity
     | apply good_r_com; reflexivity | apply good_r_vdbl; reflexivity | apply good_r_vint; reflexivity
+    | apply good_str_list; [reflexivity | assumption]
     | match goal with
       | |- true = true => reflexivity
       | |- forallb good_rec [] = true => reflexivity
